@@ -18,6 +18,7 @@ import (
 	"errors"
 	"fmt"
 	"math/big"
+	"sync"
 
 	"github.com/nspcc-dev/neo-go/pkg/core/block"
 	"github.com/nspcc-dev/neo-go/pkg/core/interop/interopnames"
@@ -48,6 +49,17 @@ const Magic uint32 = 0x334e5346
 
 // Key derives a P-256 private key from a label.
 func Key(label string) *keys.PrivateKey {
+	if k, ok := keyCache.Load(label); ok {
+		return k.(*keys.PrivateKey)
+	}
+	k := deriveKey(label)
+	keyCache.Store(label, k)
+	return k
+}
+
+var keyCache sync.Map
+
+func deriveKey(label string) *keys.PrivateKey {
 	for i := 0; ; i++ {
 		h := sha256.Sum256([]byte(fmt.Sprintf("verif-key:%s:%d", label, i)))
 		k, err := keys.NewPrivateKeyFromBytes(h[:])
